@@ -18,7 +18,6 @@ import lattice_cert as lc
 from checks import c06
 from checks.c16 import t_add, t_mul, t_scale, t_one, t_zero, t_is_zero, t_inv, t_neg
 
-KNOWN_VIA_C16 = "invariant_ideal:relation-not-generated-because:compute_basis_rational:non-integer-nullspace-truncated"
 MAX_M = 21
 
 
